@@ -9,6 +9,7 @@ import (
 	"strconv"
 
 	"saoverif/check"
+	"saoverif/replica"
 	_ "saoverif/props"
 )
 
@@ -29,6 +30,13 @@ func main() {
 			out = os.Args[3]
 		}
 		check.RunJob(job, out)
+	case "replica-child":
+		var o replica.ChildOpts
+		if err := json.Unmarshal([]byte(os.Args[2]), &o); err != nil {
+			fmt.Println("bad opts:", err)
+			os.Exit(2)
+		}
+		replica.RunChild(o)
 	case "check":
 		fs := flag.NewFlagSet("check", flag.ExitOnError)
 		tier := fs.String("tier", envOr("VERIF_TIER", "quick"), "quick|thorough")
